@@ -113,6 +113,14 @@ def run(ctx):
     for j in idxs:
         lf = low_bits_form(j)
         if not (lf and lf[0] == h_p and lf[1] == b_f):
+            # h & (registers.len() - 1): the same low b bits provided registers.len() == 1 << b is an invariant of the type —
+            # every construction site establishes it (the obligation C20 checks) and no writer replaces the vector by one of
+            # another length
+            jm = strip_int_casts(j)
+            lenm1 = mk("Sub", ("call", "[T]::len", (("field", selfp, "registers"),)), const(1))
+            lenm1v = mk("Sub", ("call", "std::vec::Vec::len", (("field", selfp, "registers"),)), const(1))
+            if jm[0] == "op" and jm[1] == "BitAnd" and len(jm[2]) == 2 and h_p in jm[2] and (lenm1 in jm[2] or lenm1v in jm[2]) and len_is_pow2_b(ctx):
+                continue
             ok_j = False
     ctx.check(ok_j, "R17-index-rank", ah.key + ":j", ah, "register index is the low b bits of the hash (%s)" % (fmt(idxs[0]) if idxs else "?"),
               "register index %s is not `hash mod 2^b`" % (fmt(idxs[0]) if idxs else "<none>"))
@@ -129,6 +137,14 @@ def run(ctx):
             want_lz = repr(("op", "leading_zeros", (mk("Shr", h_p, b_f),)))
             coeffs = {r: v[1] for r, v in atoms.items()}
             ok_p = narrow and c == 1 and coeffs == {want_lz: 1, repr(b_f): -1}
+            if not ok_p and narrow and c == 1 and len(atoms) == 1 and list(coeffs.values()) == [1]:
+                # leading_zeros(h >> b) == min(leading_zeros(h) + b, 64), so the rank is also min(leading_zeros(h), 64 - b) + 1
+                a_ = list(atoms.values())[0][0]
+                if a_[0] == "op" and a_[1] == "min" and len(a_[2]) == 2 and ("op", "leading_zeros", (h_p,)) in a_[2]:
+                    cap = [x for x in a_[2] if x != ("op", "leading_zeros", (h_p,))]
+                    if len(cap) == 1:
+                        at2, c2 = linear(cap[0])
+                        ok_p = c2 == 64 and {r: v[1] for r, v in at2.items()} == {repr(b_f): -1}
     ctx.check(ok_p, "R17-index-rank", ah.key + ":p", ah, "rank is leading_zeros(h >> b) + 1 - b, stored as u8 (lossless: <= 61 for b >= 4)",
               "rank term %s is not `leading_zeros(hash >> b) + 1 - b` narrowed to u8" % desc)
 
@@ -248,6 +264,47 @@ def run(ctx):
 def w_index_terms(ctx, m):
     out = []
     for w in all_writes(ctx, m):
-        if self_field(w) == "registers" and w["how"] == "borrow" and w.get("name") == "index_mut":
+        if self_field(w) == "registers" and w["how"] == "borrow" and w.get("name") == "index_mut" and not (w["args"][1][0] == "adt" and w["args"][1][1] == "std::ops::RangeFull"):
             out.append(w["args"][1])
     return out
+
+
+def len_is_pow2_b(ctx):
+    """registers.len() == 1 << b in every reachable HyperLogLog: each aggregate site either copies an existing value or is dominated by
+    the fact len(registers) == 1 << b, and every whole-vector store to the field keeps the length"""
+    from .C20 import aggregate_sites, site_obligation
+    prog = ctx.prog
+    selfp = ("param", 1, "self")
+    sites = aggregate_sites(prog, HLL)
+    if not sites:
+        return False
+    for (f, bi, si, st) in sites:
+        tb = TermBuilder(f, prog)
+        d = dict(tb.rvalue(st.rv, bi, si)[3])
+        srcs = {repr(d[n][1]) if d.get(n) is not None and d[n][0] == "field" and d[n][2] == n else None for n in ("registers", "b")}
+        if None not in srcs and len(srcs) == 1:
+            continue
+        if not site_obligation(ctx, f, bi, d["b"], d["registers"], tb)[2]:
+            return False
+    lens = [("call", n, (("field", selfp, "registers"),)) for n in ("[T]::len", "std::vec::Vec::len")]
+    for m in methods_of(prog, HLL):
+        if not has_self_receiver(m) or m.impl_derived:
+            continue
+        for w in all_writes(ctx, m):
+            if w["root"] != SELF or self_field(w) != "registers" or w.get("via"):
+                continue
+            if w["how"] == "borrow":
+                continue
+            if w["how"] == "store" and "[]" in w["path"]:
+                continue
+            v = w.get("value")
+            if w["how"] == "store" and v is not None and v[0] == "call" and v[1].endswith("from_elem") and (v[2][1] in lens or v[2][1] == mk("Shl", const(1), ("field", selfp, "b"))):
+                continue
+            if w["how"] == "store" and v is not None and v[0] == "call" and v[1].endswith("collect"):
+                from .common import cellwise_merge
+                if cellwise_merge(ctx, m, "registers")["form"] is not None:
+                    continue
+            if w["how"] == "call" and w.get("name") in ("fill", "iter_mut", "as_mut_slice", "index_mut"):
+                continue
+            return False
+    return True
